@@ -345,11 +345,6 @@ func body(c *sched.Ctl, cs Case, v *ev.Verdict) {
 	ctxs = append(ctxs, nil)
 	cancels = append(cancels, nil)
 	pendingMut := map[string]func(){}
-	type timerSec struct {
-		retry bool
-		key   int
-	}
-	var pendingTimers []timerSec
 	var refs []*refRec
 	unexpected := 0
 	// non-triviality
@@ -364,31 +359,6 @@ func body(c *sched.Ctl, cs Case, v *ev.Verdict) {
 		hm.Lock()
 		defer hm.Unlock()
 		pend := c.Pending()
-		for len(pendingTimers) > 0 {
-			ts := pendingTimers[0]
-			pendingTimers = pendingTimers[1:]
-			effect := false
-			if ts.retry {
-				if len(m.unbound[ts.key]) == 0 {
-					for _, tk := range pend {
-						if tk.Point == "keyed.exec" && tk.Label == "" && tk.Obj == any(ts.key) {
-							effect = true
-						}
-					}
-				}
-			} else {
-				_, ex := getKey(ts.key)
-				_, mex := m.recs[ts.key]
-				effect = mex && !ex
-			}
-			if err := m.TimerSection(ts.retry, ts.key, effect); err != nil {
-				if ts.retry {
-					fail("C07", "keyed:unexpected-retry", "%v", err)
-				} else {
-					fail("C06", "keyed:unexpected-removal", "%v", err)
-				}
-			}
-		}
 		for _, tk := range pend {
 			if tk.Label != "" {
 				continue
@@ -404,9 +374,10 @@ func body(c *sched.Ctl, cs Case, v *ev.Verdict) {
 					c.LabelGoid(tk.Goid(), fmt.Sprintf("x%03d", unexpected))
 				}
 			case "keyed.timer.retry":
-				c.LabelGoid(tk.Goid(), fmt.Sprintf("tr%d", tk.Obj.(int)))
+				// the hook passes the record's data (1000 + record id)
+				c.LabelGoid(tk.Goid(), fmt.Sprintf("tr%d", tk.Obj.(int)-1000))
 			case "keyed.timer.remove":
-				c.LabelGoid(tk.Goid(), fmt.Sprintf("tm%d", tk.Obj.(int)))
+				c.LabelGoid(tk.Goid(), fmt.Sprintf("tm%d", tk.Obj.(int)-1000))
 			}
 		}
 	}
@@ -440,14 +411,14 @@ func body(c *sched.Ctl, cs Case, v *ev.Verdict) {
 				err = tok.inst.err
 			}
 			m.Exit(tok, err)
-		case strings.HasPrefix(tk.Label, "tr"):
-			var k int
-			fmt.Sscanf(tk.Label, "tr%d", &k)
-			pendingTimers = append(pendingTimers, timerSec{true, k})
-		case strings.HasPrefix(tk.Label, "tm"):
-			var k int
-			fmt.Sscanf(tk.Label, "tm%d", &k)
-			pendingTimers = append(pendingTimers, timerSec{false, k})
+		case strings.HasPrefix(tk.Label, "tr"), strings.HasPrefix(tk.Label, "tm"):
+			var id int
+			fmt.Sscanf(tk.Label[2:], "%d", &id)
+			if r, ok := m.byID[id]; ok {
+				m.TimerSection(strings.HasPrefix(tk.Label, "tr"), r)
+			} else {
+				fail("C06", "keyed:unknown-record-timer", "a timer callback ran for a record (id %d) the model never constructed", id)
+			}
 		}
 	})
 
@@ -542,7 +513,22 @@ func body(c *sched.Ctl, cs Case, v *ev.Verdict) {
 		if len(c.Pending()) == 0 {
 			for _, tok := range m.toks {
 				if tok.inst == nil && !tok.cancelled && !anyActive[tok.rec.key] {
-					fail("C07", "keyed:missing-run", "%s: key %d (record %d, %s): the machine started an instance (a start, restart or back-off retry) that never entered the routine", where, tok.rec.key, tok.rec.id, tok.rec.beh)
+					dbg := ""
+					for _, t2 := range m.toks {
+						if t2.rec.key == tok.rec.key {
+							dbg += fmt.Sprintf(" tok%d(rec%d stale=%v canc=%v rec=%v inst=%v)", t2.id, t2.rec.id, t2.stale, t2.cancelled, t2.recorded, t2.inst != nil)
+						}
+					}
+					for _, in := range insts {
+						if in.key == tok.rec.key {
+							tid := -1
+							if in.tok != nil {
+								tid = in.tok.id
+							}
+							dbg += fmt.Sprintf(" inst%d(rec%d tok%d ret=%v)", in.id, in.rec, tid, in.returned)
+						}
+					}
+					fail("C07", "keyed:missing-run", "%s: key %d (record %d, %s): the machine started an instance (a start, restart or back-off retry) that never entered the routine [%s ] unbound=%d fired=%d", where, tok.rec.key, tok.rec.id, tok.rec.beh, dbg, len(m.unbound[tok.rec.key]), len(m.fired))
 					return
 				}
 			}
